@@ -90,10 +90,12 @@ def run_dump(tools, path, kp=b"", vp=b"", mink=None, minv=None):
         cmd += ["-k", kp.hex()]
     if vp:
         cmd += ["-v", vp.hex()]
+    # the lengths are decimal numbers: written with leading zeros in every other run (010 is ten)
+    pad = "%03d" if (len(path) + (mink or 0) + (minv or 0)) % 2 else "%d"
     if mink is not None:
-        cmd += ["-K", str(mink)]
+        cmd += ["-K", pad % mink]
     if minv is not None:
-        cmd += ["-V", str(minv)]
+        cmd += ["-V", pad % minv]
     p = subprocess.run(cmd + [path], stdout=subprocess.PIPE, stderr=subprocess.PIPE, text=True, env=dict(os.environ, LC_ALL="C"), timeout=120)
     ents = []
     raw = []
